@@ -164,6 +164,6 @@ def check(ctx, rule):
         and len(unp) >= 1 and all(any(k.arg == "raw" and ast.unparse(k.value) == "False" for k in u.keywords) for u in unp)
     ctx.ob(f"{rule}.msgpack-types", BCIF, "BinaryCIFFile", "packb(use_bin_type=True) / unpackb(raw=False)", okp,
            "bytes and str must stay distinguishable on the wire (data are bytes, keys and kinds are str)", fl["write"].lineno)
-    okr = all(call_name(p) == "BinaryCIFFile.deserialize" for p in [c for c in calls(fl["read"]) if any(u is a for u in unp for a in c.args)])
+    okr = all(call_name(p) in ("BinaryCIFFile.deserialize", "cls.deserialize") for p in [c for c in calls(fl["read"]) if any(u is a for u in unp for a in c.args)])
     ctx.ob(f"{rule}.read-deserialises", BCIF, "BinaryCIFFile.read", "BinaryCIFFile.deserialize(msgpack.unpackb(...))", okr and bool(unp),
            "read() builds the file from the unpacked content", fl["read"].lineno)
